@@ -17,10 +17,10 @@ package main
 // callee only in the rows where that preserves meaning.
 
 import (
-	"os"
 	"fmt"
 	"go/token"
 	"go/types"
+	"os"
 	"sort"
 	"strings"
 
